@@ -381,9 +381,13 @@ def model_harness(doc: dict, package: str, data: Any, depth_max: int = 2, list_m
             ps = (merged.get("properties") or {}).get(p.name, {})
             al = alternatives(doc, ps)
             kinds = [a for a in al if a["k"] in ("enum", "const")]
-            if len(kinds) != 1 or any(a["k"] not in ("enum", "const", "null") for a in al):
+            if not kinds or any(a["k"] not in ("enum", "const", "null") for a in al):
                 continue
-            vals = kinds[0]["values"] if kinds[0]["k"] == "enum" else [kinds[0]["value"]]
+            vals = []  # a union of several consts / enums admits exactly the values any member lists
+            for kd in kinds:
+                for v in kd["values"] if kd["k"] == "enum" else [kd["value"]]:
+                    if all(not (v == u and type(v) is type(u)) for u in vals):
+                        vals.append(v)
             near = []
             for v in vals:
                 if isinstance(v, str):
@@ -605,7 +609,12 @@ def _req_condition(doc, package, path, method, op, ep, alias, list_max, str_max,
         py, wire = f"a{i}", f"w{i}"
         required = bool(p.get("required")) or loc == "path"
         ind = "    "
-        if not required:
+        sch = deref(doc, p["schema"])
+        has_default = isinstance(sch, dict) and sch.get("default") is not None
+        # an argument may be left out when the parameter is optional, or when its schema declares a default
+        # (then the declared default is what has to be sent: C13 for parameters)
+        can_omit = not required or has_default
+        if can_omit:
             flag = g.arg("set", "bool")
             lines.append(f"    if {flag}:")
             ind = "        "
@@ -629,6 +638,18 @@ def _req_condition(doc, package, path, method, op, ep, alias, list_max, str_max,
         else:
             has_cookie = True
             lines.append(f"{ind}exp_cookies[{name!r}] = {wire}")
+        if can_omit and has_default:
+            dv = repr(sch["default"])
+            lines.append("    else:")
+            if loc == "path":
+                lines.append(f"        exp_path[{name!r}] = {dv}")
+            elif loc == "query":
+                lines.append(f"        exp_params[{name!r}] = {dv}")
+            elif loc == "header":
+                kind = next((a for a in alts if a["k"] != "null"), alts[0])
+                lines.append(f"        exp_headers[{name!r}] = {header_wire(kind, dv)}")
+            else:
+                lines.append(f"        exp_cookies[{name!r}] = {dv}")
     # body
     body_kind = "None"
     rb = op.get("requestBody")
@@ -636,6 +657,13 @@ def _req_condition(doc, package, path, method, op, ep, alias, list_max, str_max,
     if rb is not None:
         rb = deref(doc, rb)
         bodies = list(ep.bodies)
+        # the media types come from the *document*: the i-th media type the generator supports is the i-th body, and
+        # it has to be sent under exactly the key the document uses (parameters such as "; charset=utf-8" included)
+        doc_cts = [ct for ct in (rb.get("content") or {}) if _body_kind_of(ct, OVERRIDES) is not None]
+        if len(doc_cts) != len(bodies):
+            fn = f"req_{alias[3:]}"
+            why = f"{method.upper()} {path} declares the supported request media types {doc_cts}, the generated function handles {[b.content_type for b in bodies]}"
+            return f'def {fn}() -> bool:\n    """\n    post: _\n    """\n    return missing_piece({why!r})\n', fn
         if len(bodies) >= 1:
             sel = None
             if len(bodies) > 1:
@@ -645,25 +673,31 @@ def _req_condition(doc, package, path, method, op, ep, alias, list_max, str_max,
                 if sel:
                     lines.append(f"    {'if' if bi == 0 else 'elif'} {sel} == {bi}:")
                     ind = "        "
-                schema = rb["content"][b.content_type]["schema"]
+                doc_ct = doc_cts[bi]
+                schema = rb["content"][doc_ct]["schema"]
                 bt = str(b.body_type.value) if hasattr(b.body_type, "value") else str(b.body_type)
+                if bt != _body_kind_of(doc_ct, OVERRIDES):
+                    raise SkeletonError(f"body kind {bt} for {doc_ct}")
                 if bt == "content":
                     imports.add("from io import BytesIO")
                     pay = g.arg("pay", "int", "0 <= $ < 2")
                     lines.append(f"{ind}raw = pick((b'', b'\\x00\\xffabc'), {pay})")
                     lines.append(f"{ind}stream = BytesIO(raw)")
                     lines.append(f"{ind}kw['body'] = File(payload=stream)")
-                    lines.append(f"{ind}exp_body = ('content', stream, {b.content_type!r})")
+                    lines.append(f"{ind}exp_body = ('content', stream, {doc_ct!r})")
                 elif bt == "files":
                     g.pool_all = True
                     g.emit_py(_strip_binary(doc, schema), b.prop, lines, ind, "body_py", "body_wire", pool_ints=True)
                     g.pool_all = False
                     lines.append(f"{ind}kw['body'] = body_py")
-                    lines.append(f"{ind}exp_body = ('files', body_wire, None)")
+                    # httpx writes the multipart header itself (boundary); a media type that is merely *treated as* multipart
+                    # through content_type_overrides is still announced as itself
+                    want_ct = None if doc_ct.split(";")[0].strip().lower() == "multipart/form-data" else doc_ct
+                    lines.append(f"{ind}exp_body = ('files', body_wire, {want_ct!r})")
                 else:
                     g.emit_py(schema, b.prop, lines, ind, "body_py", "body_wire")
                     lines.append(f"{ind}kw['body'] = body_py")
-                    lines.append(f"{ind}exp_body = ({bt!r}, body_wire, {b.content_type!r})")
+                    lines.append(f"{ind}exp_body = ({bt!r}, body_wire, {doc_ct!r})")
             if sel:
                 lines.append("    else:")
                 lines.append("        exp_body = None")
@@ -675,6 +709,25 @@ def _req_condition(doc, package, path, method, op, ep, alias, list_max, str_max,
     spec = {"method": method, "path": path, "has_query": has_query, "has_cookie": has_cookie, "has_header": has_header, "security": bool(op.get("security"))}
     ret = f"request_ok({alias}, kw, {spec!r}, exp_path, exp_params, exp_headers, exp_cookies, {exp_body}, AuthenticatedClient, UNSET)"
     return func_source(fn, g, lines, ret), fn
+
+
+OVERRIDES: dict = {}  # content_type_overrides of the configuration the client under test was generated with (set by run())
+
+
+def _body_kind_of(ct: str, overrides: dict) -> str | None:
+    """httpx keyword the documented request media type has to be sent with (README: JSON, form, multipart, raw bytes);
+    None = not supported (the generator warns and skips it)."""
+    ct = overrides.get(ct, ct)
+    base = ct.split(";")[0].strip().lower()
+    if base == "application/json" or base.endswith("+json"):
+        return "json"
+    if base == "application/x-www-form-urlencoded":
+        return "data"
+    if base == "multipart/form-data":
+        return "files"
+    if base == "application/octet-stream":
+        return "content"
+    return None
 
 
 def _strip_binary(doc: dict, schema: Any) -> Any:
@@ -799,8 +852,9 @@ def run(family: str, skeleton: str, prefixes: list[str], include_unregistered: b
     from .common import REPO, fingerprint, result
     from . import skeletons as sk
 
-    global UNREGISTERED_STATUS
+    global UNREGISTERED_STATUS, OVERRIDES
     config = config or {}
+    OVERRIDES = dict(config.get("content_type_overrides") or {})
     known = known or []
     live = []
     for e in known:
